@@ -423,7 +423,7 @@ def keytag_full_unit(name='key_tag/rfc4034-appendix-B'):
                 clause='key tag', functions=['DnsRecordDnskey.key_tag'])
 
 
-def units(tier, seed):
+def _units_body(tier, seed):
     from checks import k6family, foundation
     out = [keytag_full_unit()]
     by_name = {c.__name__: c for c in e1.binary_classes()}
@@ -449,6 +449,12 @@ def units(tier, seed):
     from checks import tables as _tables
     _table_units = _tables.units(_tables.DNS)
     return out + foundation.units(tier, seed) + _table_units
+
+
+
+def units(tier, seed):
+    from checks import canary
+    return list(_units_body(tier, seed)) + [canary.key_tag_zero()]
 
 
 FINDING_REPLAYS = {KF_ODD: w_keytag_odd, KF_ED448: w_ed448}
